@@ -4,6 +4,18 @@ import json, sys
 
 ENGINE = "gsx"
 CHECKS = {
+ "C29": dict(
+   text="Sixteen request shapes with symbolic / boundary field values are pushed through the real handleService of a server built by the harness, with and without an activated session, on a channel opened by the real OpenSecureChannel handling; every Go run-time panic in the handler or in goroutines it starts is an obligation.",
+   note="One request per run (plus session setup); blocking sends, several clients and raw chunks are outside (C13 covers malformed chunks). Found and fixed: nil dereferences for unknown ids / missing sessions, NewTicker panic for bad publishing intervals, Browse panic (C33). Trusted: go/ssa, gsx, z3.",
+   ref="DESIGN.md §5 C29"),
+ "C32": dict(
+   text="Create/delete histories of subscriptions and cross-session requests on subscriptions and monitored items run through the real handlers; new ids are compared with the ids in use, refused requests must leave the tables unchanged.",
+   note="Found and fixed: id = len+1 collision, missing continue after the ownership check. Bounds: histories of <= 4 creates and one delete; two sessions. Trusted: go/ssa, gsx, z3.",
+   ref="DESIGN.md §5 C32"),
+ "C35": dict(
+   text="Requests carrying a null, unknown, not-activated, closed or activated authentication token are pushed through the real handleService; without an activated session the response must carry a session status code and server state must be unchanged.",
+   note="Found and fixed: no session check existed at all (central check added in handleService). Channel-binding of sessions is outside the claim. Trusted: go/ssa, gsx, z3.",
+   ref="DESIGN.md §5 C35"),
  "C31": dict(
    text="The real AttributeService.Read/Write and NodeNameSpace.Attribute/SetAttribute/Node.Access are executed on a node whose two access level attributes are absent, any byte value (symbolic) or wrongly typed; returned values and accepted writes are compared with the access predicate.",
    note="Bounds: one node, one read and one write of the Value attribute. Trusted: go/ssa, gsx, z3.",
